@@ -109,3 +109,192 @@ Example skip_height_examples :
   map get_skip_height [0; 1; 2; 3; 12; 13; 1000; 2 ^ 63 - 1]%N
   = map Some [0; 0; 0; 1; 8; 1; 992; 2 ^ 63 - 7]%N.
 Proof. vm_compute. reflexivity. Qed.
+
+(* ---- get_ancestor = parent walk ------------------------------------------------ *)
+Local Close Scope Z_scope.
+Local Open Scope N_scope.
+
+Section Walk.
+  Variable par : N -> N.        (* parent hash of a hash *)
+  Variable num : N -> N.        (* block number of a hash *)
+  Variable getv : N -> bool -> option hdr.
+  Variable fast : N -> N * N -> option hdr.
+  Variable tip : N.
+
+  Fixpoint walkh (k : nat) (x : N) : N :=
+    match k with O => x | S k' => walkh k' (par x) end.
+
+  (* a view tells the truth about its block; its skip pointer, if any, is the
+     ancestor at the skip height *)
+  Definition faithful (c : hdr) : Prop :=
+    h_number c = num (h_hash c) /\ h_parent c = par (h_hash c) /\
+    forall s, h_skip c = Some s -> s = walkh (N.to_nat (num (h_hash c) - skip_spec (num (h_hash c)))) (h_hash c).
+
+  Hypothesis Hnum : forall x, 0 < num x -> num (par x) = num x - 1.
+  Hypothesis Hgetv : forall x sf c, getv x sf = Some c -> h_hash c = x /\ faithful c.
+  Hypothesis Hfast : forall n x t, fast n (num x, x) = Some t -> n <= num x ->
+                                   h_hash t = walkh (N.to_nat (num x - n)) x.
+
+  Lemma num_walkh k : forall x, N.of_nat k <= num x -> num (walkh k x) = num x - N.of_nat k.
+  Proof.
+    induction k as [|k IH]; intros x Hk; cbn [walkh].
+    - rewrite N.sub_0_r. reflexivity.
+    - rewrite IH; rewrite Hnum; lia.
+  Qed.
+
+  Lemma walkh_add b : forall a x, walkh a (walkh b x) = walkh (b + a) x.
+  Proof. induction b as [|b IH]; intros a x; cbn; auto. Qed.
+
+  Definition ok_result (number nw : N) (x : N) (r : res) : Prop :=
+    match r with
+    | RSome t => h_hash t = walkh (N.to_nat (nw - number)) x
+    | RNone => True
+    | RPanic => False
+    | RFuel => False
+    end.
+
+  Lemma ga_loop_spec number fuel : forall current nw,
+    faithful current -> nw = num (h_hash current) -> nw < 2 ^ 63 -> (N.to_nat nw < fuel)%nat ->
+    ok_result number nw (h_hash current) (ga_loop getv fast tip fuel number current nw).
+  Proof.
+    induction fuel as [|f IH]; intros current nw Hf Hnw Hb Hfu; [lia|].
+    cbn [ga_loop]. destruct (N.leb_spec nw number) as [Hle|Hgt].
+    - cbn. replace (nw - number) with 0 by lia. reflexivity.
+    - rewrite (get_skip_height_spec nw Hb), (get_skip_height_spec (nw - 1)) by lia.
+      destruct Hf as (Hn & Hp & Hs).
+      pose proof (skip_spec_lt nw ltac:(lia)) as Hsk.
+      set (x := h_hash current) in *.
+      (* the two ways to move *)
+      assert (Hparent : forall c, getv (h_parent current) (h_number current <=? tip) = Some c ->
+                ok_result number nw x
+                  match fast number (h_number c, h_hash c) with
+                  | Some t => RSome t
+                  | None => ga_loop getv fast tip f number c (nw - 1)
+                  end).
+      { intros c Hc. destruct (Hgetv _ _ _ Hc) as [Hh Hfc]. rewrite Hp in Hh.
+        assert (Hnc : num (h_hash c) = nw - 1) by (rewrite Hh, Hnum; lia).
+        destruct Hfc as (Hcn & Hfc'). rewrite Hcn.
+        destruct (fast number (num (h_hash c), h_hash c)) as [t|] eqn:Ef.
+        - cbn. rewrite (Hfast _ _ _ Ef) by lia. rewrite Hnc, Hh.
+          change (walkh (N.to_nat (nw - 1 - number)) (par x)) with (walkh (N.to_nat (nw - 1 - number)) (walkh 1 x)).
+          rewrite walkh_add. f_equal. lia.
+        - assert (Hi : ok_result number (nw - 1) (h_hash c) (ga_loop getv fast tip f number c (nw - 1))).
+          { apply IH; [split; auto|lia|lia|lia]. }
+          destruct (ga_loop getv fast tip f number c (nw - 1)); cbn in *; auto.
+          rewrite Hi, Hh. change (walkh (N.to_nat (nw - 1 - number)) (par x)) with (walkh (N.to_nat (nw - 1 - number)) (walkh 1 x)).
+          rewrite walkh_add. f_equal. lia. }
+      destruct (h_skip current) as [sh|] eqn:Esk.
+      + destruct (follow_skip number (skip_spec nw) (skip_spec (nw - 1))) eqn:Efs.
+        * destruct (getv sh (h_number current <=? tip)) as [c|] eqn:Ec; cbn [option_map]; [|exact I].
+          destruct (Hgetv _ _ _ Ec) as [Hh Hfc].
+          assert (Hge : number <= skip_spec nw).
+          { unfold follow_skip in Efs. apply orb_true_iff in Efs. destruct Efs as [E|E].
+            - apply N.eqb_eq in E. lia.
+            - apply andb_true_iff in E. destruct E as [E _]. apply N.ltb_lt in E. lia. }
+          specialize (Hs sh eq_refl). rewrite <- Hnw in Hs.
+          assert (Hnc : num (h_hash c) = skip_spec nw).
+          { rewrite Hh, Hs, num_walkh; fold x; lia. }
+          destruct Hfc as (Hcn & Hfc'). rewrite Hcn.
+          destruct (fast number (num (h_hash c), h_hash c)) as [t|] eqn:Ef.
+          -- cbn. rewrite (Hfast _ _ _ Ef) by lia. rewrite Hnc, Hh, Hs, walkh_add. f_equal. lia.
+          -- assert (Hi : ok_result number (skip_spec nw) (h_hash c) (ga_loop getv fast tip f number c (skip_spec nw))).
+             { apply IH; [split; auto|lia|lia|lia]. }
+             destruct (ga_loop getv fast tip f number c (skip_spec nw)); cbn in *; auto.
+             rewrite Hi, Hh, Hs, walkh_add. f_equal. lia.
+        * destruct (getv (h_parent current) (h_number current <=? tip)) as [c|] eqn:Ec; cbn [option_map]; [|exact I].
+          now apply Hparent.
+      + destruct (getv (h_parent current) (h_number current <=? tip)) as [c|] eqn:Ec; cbn [option_map]; [|exact I].
+        now apply Hparent.
+  Qed.
+
+  (* the header get_ancestor returns is the one reached by number(self) - number
+     parent steps; the loop neither runs out of rounds nor overflows *)
+  Theorem get_ancestor_eq_walk : forall self number,
+    faithful self -> num (h_hash self) < 2 ^ 63 ->
+    match get_ancestor getv fast tip self number with
+    | RSome t => number <= num (h_hash self) /\
+                 h_hash t = walkh (N.to_nat (num (h_hash self) - number)) (h_hash self)
+    | RNone => True
+    | RPanic | RFuel => False
+    end.
+  Proof.
+    intros self number Hf Hb. unfold get_ancestor.
+    destruct (N.ltb_spec (h_number self) number) as [H|H]; [exact I|].
+    pose proof Hf as (Hn & _).
+    pose proof (ga_loop_spec number (S (N.to_nat (h_number self))) self (h_number self) Hf Hn) as G.
+    rewrite Hn in *. specialize (G Hb ltac:(lia)).
+    destruct (ga_loop _ _ _ _ _ _ _); cbn in *; auto.
+  Qed.
+End Walk.
+
+(* termination on its own: with number(self) + 1 rounds the loop never reports
+   RFuel, whatever the oracles answer (heights below 2^63) *)
+Theorem get_ancestor_terminates : forall getv fast tip number fuel current nw,
+  nw < 2 ^ 63 -> (N.to_nat nw < fuel)%nat ->
+  ga_loop getv fast tip fuel number current nw <> RFuel /\
+  ga_loop getv fast tip fuel number current nw <> RPanic.
+Proof.
+  intros getv fast tip number fuel. induction fuel as [|f IH]; intros current nw Hb Hfu; [lia|].
+  cbn [ga_loop]. destruct (N.leb_spec nw number); [split; discriminate|].
+  rewrite (get_skip_height_spec nw Hb), (get_skip_height_spec (nw - 1)) by lia.
+  pose proof (skip_spec_lt nw ltac:(lia)) as Hsk.
+  match goal with |- context [match ?n with Some _ => _ | None => RNone end] => destruct n as [[c nw']|] eqn:En end;
+    [|split; discriminate].
+  assert (nw' < nw) as Hlt.
+  { destruct (h_skip current); [destruct (follow_skip _ _ _)|];
+      match type of En with option_map _ ?g = _ => destruct g; cbn in En; [injection En as <- <-|discriminate] end; lia. }
+  destruct (fast number (h_number c, h_hash c)); [split; discriminate|]. apply IH; lia.
+Qed.
+
+(* non-vacuity: the linear chain hash = number with true skip pointers satisfies the hypotheses *)
+Definition lin_par (x : N) : N := x - 1.
+Definition lin_num (x : N) : N := x.
+Definition lin_getv (x : N) (_ : bool) : option hdr :=
+  Some (mkHdr x x (x - 1) (if N.eqb x 0 then None else Some (skip_spec x))).
+Definition lin_fast (_ : N) (_ : N * N) : option hdr := None.
+
+Lemma lin_walkh k : forall x, walkh lin_par k x = x - N.of_nat k.
+Proof. induction k; intros x; cbn [walkh]; [lia|]. rewrite IHk. unfold lin_par. lia. Qed.
+
+Example get_ancestor_example :
+  (forall x, 0 < lin_num x -> lin_num (lin_par x) = lin_num x - 1) /\
+  (forall x sf c, lin_getv x sf = Some c -> h_hash c = x /\ faithful lin_par lin_num c) /\
+  res_hash (get_ancestor lin_getv lin_fast 0 (mkHdr 1000 1000 999 (Some 992)) 37) = Some 37.
+Proof.
+  split; [reflexivity|]. split; [|vm_compute; reflexivity].
+  intros x sf c [= <-]. cbn. split; [reflexivity|]. split; [reflexivity|]. split; [reflexivity|].
+  intros s. unfold lin_num. destruct (N.eqb_spec x 0); [discriminate|]. intros [= <-].
+  rewrite lin_walkh, N2Nat.id. unfold lin_num. cbn [h_hash]. pose proof (skip_spec_lt x ltac:(lia)). lia.
+Qed.
+
+(* ---- locator: every listed hash is the start's ancestor at the listed height ---- *)
+Section LocatorSpec.
+  Variable A : N -> N.                 (* the chain of the start header: height => hash *)
+  Variable ga : N -> N -> option N.
+  Variable genesis n : N.
+  (* get_ancestor, asked from any header of that chain, walks to the header at the height *)
+  Hypothesis Hga : forall m k, k <= m -> m <= n -> ga (A m) k = Some (A k).
+
+  Lemma loc_loop_eq fuel : forall step index m acc, index <= m -> m <= n ->
+    loc_loop ga genesis fuel step index (A m) acc
+    = loc_loop (fun _ k => Some (A k)) genesis fuel step index (A m) acc.
+  Proof.
+    induction fuel as [|f IH]; intros step index m acc H1 H2; [reflexivity|].
+    cbn [loc_loop]. rewrite (Hga m index H1 H2).
+    set (st := if Nat.leb 10 (length (acc ++ [A index])) then step * 2 else step).
+    destruct (N.ltb index (st * 2)).
+    - destruct (_ && _); [|reflexivity].
+      rewrite (IH st (index / 2) index) by (try lia; apply N.div_le_upper_bound; lia).
+      reflexivity.
+    - apply (IH st (index - st) index); lia.
+  Qed.
+
+  Theorem locator_eq_walk :
+    get_locator ga genesis n (A n) = get_locator (fun _ k => Some (A k)) genesis n (A n).
+  Proof. unfold get_locator. apply loc_loop_eq; lia. Qed.
+End LocatorSpec.
+
+Example locator_example :
+  get_locator (fun _ k => Some k) 0 30 30 = Some [30; 29; 28; 27; 26; 25; 24; 23; 22; 21; 19; 15; 0]%N
+  /\ option_map (@length N) (get_locator (fun _ k => Some k) 0 40000 40000) = Some 26%nat.
+Proof. vm_compute. auto. Qed.
